@@ -21,10 +21,27 @@ def _nums(s):
     return [float(x) for x in re.findall(r'-?\d+\.\d+(?:[eE][-+]?\d+)?', s)]
 
 
-def check_summary(dassh, r, d, track=None):
+def check_summary(dassh, r, d, track=None, units=None):
     """Returns 1 if the coolant and duct summary tables agree with the
-    final fields and with independent running maxima (2-decimal print)."""
+    final fields and with independent running maxima (2-decimal print).
+    units: the unit system requested in the input (None: SI); expected values
+    are converted with the harness's own factors."""
     del LAST_MISMATCH[:]
+    from . import unitsys
+    if units:
+        u = {k: str(v).lower() for k, v in units.items()}
+        u.setdefault('length', 'm')
+        u.setdefault('temperature', 'k')
+
+        def cT(v):
+            return unitsys.to_user(float(v), 'T', u)
+
+        def cL(v):
+            return unitsys.to_user(float(v), 'L', u)
+    else:
+        def cT(v):
+            return float(v)
+        cL = cT
     ok = True
     try:
         ctab = dassh.table.CoolantTempTable().generate(r, None)
@@ -49,10 +66,10 @@ def check_summary(dassh, r, d, track=None):
         vals = nums[2:]
         got_bulk, got_pk_out, got_pk = vals[0], vals[1], vals[2]
         got_ht = vals[-1]
-        for nm, g, w in (('bulk outlet', got_bulk, want_bulk),
-                         ('peak outlet', got_pk_out, want_pk_out),
-                         ('peak total', got_pk, want_pk),
-                         ('peak height', got_ht, want_ht)):
+        for nm, g, w in (('bulk outlet', got_bulk, cT(want_bulk)),
+                         ('peak outlet', got_pk_out, cT(want_pk_out)),
+                         ('peak total', got_pk, cT(want_pk)),
+                         ('peak height', got_ht, cL(want_ht))):
             if abs(g - w) > tol:
                 ok = False
                 LAST_MISMATCH.append(
@@ -77,6 +94,7 @@ def check_summary(dassh, r, d, track=None):
             slot = ns - nd_last + d_
             want_pk, want_ht = (track['duct'][i][slot] if track
                                 else a._peak['duct'][slot])
+            want_pk, want_ht = cT(want_pk), cL(want_ht)
             if abs(got_pk - want_pk) > tol or abs(got_ht - want_ht) > tol:
                 ok = False
                 LAST_MISMATCH.append(
